@@ -26,9 +26,24 @@ pub struct GraphCase {
     /// node's own address) to the stream
     #[serde(default)]
     pub tracked_header: bool,
+    /// true: every node body also carries a DeduplicatedString tag (one of four, chosen by the label), so that string
+    /// ids and object numbers are assigned in the same stream
+    #[serde(default)]
+    pub tagged: bool,
     /// which reference site to corrupt (fault part) and how
     pub fault_sel: u16,
     pub fault_kind: u8,
+}
+
+/// codec flavour
+#[derive(Clone, Copy)]
+pub struct Fl {
+    pub th: bool,
+    pub tag: bool,
+}
+
+fn tag_of(label: u32) -> &'static str {
+    ["", "n", "node-\u{3b2}", "a longer tag that is not short"][(label % 4) as usize]
 }
 
 /// first field of a node: a distinct object of a different type at the node's own address
@@ -60,25 +75,28 @@ fn unlink(nodes: &[Rc<GNode>]) {
 
 // ---- the user codec: identity offered to the stream is the node address, on both sides, all in safe code
 
-fn ser_slot<O: BinaryOutput>(node: &Rc<GNode>, ctx: &mut SerializationContext<O>, th: bool) -> desert::Result<()> {
+fn ser_slot<O: BinaryOutput>(node: &Rc<GNode>, ctx: &mut SerializationContext<O>, fl: Fl) -> desert::Result<()> {
     if ctx.store_ref_or_object(&**node)? {
-        if th {
+        if fl.th {
             if ctx.store_ref_or_object(&node.head)? {
                 ctx.write_u32(node.head.label);
             }
         } else {
             ctx.write_u32(node.head.label);
         }
+        if fl.tag {
+            desert::BinarySerializer::serialize(&desert::DeduplicatedString(tag_of(node.head.label).to_string()), ctx)?;
+        }
         let edges = node.edges.borrow();
         ctx.write_var_u32(edges.len() as u32);
         for child in edges.iter() {
-            ser_slot(child, ctx, th)?;
+            ser_slot(child, ctx, fl)?;
         }
     }
     Ok(())
 }
 
-fn de_slot(ctx: &mut DeserializationContext<'_>, all: &mut Vec<Rc<GNode>>, depth: usize, th: bool) -> desert::Result<Rc<GNode>> {
+fn de_slot(ctx: &mut DeserializationContext<'_>, all: &mut Vec<Rc<GNode>>, depth: usize, fl: Fl) -> desert::Result<Rc<GNode>> {
     if depth > 5000 {
         return Err(desert::Error::DeserializationFailure("graph nesting too deep for the harness".into()));
     }
@@ -88,7 +106,7 @@ fn de_slot(ctx: &mut DeserializationContext<'_>, all: &mut Vec<Rc<GNode>>, depth
             g.me.upgrade().ok_or_else(|| desert::Error::DeserializationFailure("dead node".into()))
         }
         None => {
-            let label = if th {
+            let label = if fl.th {
                 match ctx.try_read_ref()? {
                     // a header is never shared between nodes: a reference here can only come from damaged input
                     Some(any) => any.downcast_ref::<Head>().map(|h| h.label).ok_or_else(|| desert::Error::DeserializationFailure("header slot refers to a foreign object".into()))?,
@@ -100,12 +118,18 @@ fn de_slot(ctx: &mut DeserializationContext<'_>, all: &mut Vec<Rc<GNode>>, depth
             let node = Rc::new_cyclic(|w| GNode { head: Head { label }, me: w.clone(), edges: RefCell::new(vec![]) });
             all.push(node.clone());
             ctx.state_mut().store_ref(&*node);
-            if th {
+            if fl.th {
                 ctx.state_mut().store_ref(&node.head);
+            }
+            if fl.tag {
+                let t = <desert::DeduplicatedString as desert::BinaryDeserializer>::deserialize(ctx)?;
+                if t.0 != tag_of(label) {
+                    return Err(desert::Error::DeserializationFailure(format!("node {label} carries the tag {:?} instead of {:?}", t.0, tag_of(label))));
+                }
             }
             let n = ctx.read_var_u32()?;
             for _ in 0..n {
-                let child = de_slot(ctx, all, depth + 1, th)?;
+                let child = de_slot(ctx, all, depth + 1, fl)?;
                 node.edges.borrow_mut().push(child);
             }
             Ok(node)
@@ -113,20 +137,22 @@ fn de_slot(ctx: &mut DeserializationContext<'_>, all: &mut Vec<Rc<GNode>>, depth
     }
 }
 
-fn encode(root: &Rc<GNode>, th: bool) -> desert::Result<Vec<u8>> {
+fn encode(root: &Rc<GNode>, fl: Fl) -> desert::Result<Vec<u8>> {
     let mut ctx = SerializationContext::new(Vec::new());
-    ser_slot(root, &mut ctx, th)?;
+    ser_slot(root, &mut ctx, fl)?;
     Ok(ctx.into_output())
 }
 
 /// the model: pre-order of first encounter; first offer = 00 + body, later offers = var-u32 id (ids from 1)
-fn model_bytes(g: &Graph, th: bool) -> (Vec<u8>, Vec<(usize, usize)>, usize) {
+fn model_bytes(g: &Graph, fl: Fl) -> (Vec<u8>, Vec<(usize, usize)>, usize) {
     let mut ids: Vec<Option<u32>> = vec![None; g.labels.len()];
     let mut next = 0u32;
     let mut out = Vec::new();
     let mut ref_sites = Vec::new();
     // iterative pre-order with explicit stack of (node, next edge)
-    fn slot(n: usize, g: &Graph, ids: &mut Vec<Option<u32>>, next: &mut u32, out: &mut Vec<u8>, ref_sites: &mut Vec<(usize, usize)>, th: bool) {
+    let mut strings: Vec<&'static str> = Vec::new();
+    #[allow(clippy::too_many_arguments)]
+    fn slot(n: usize, g: &Graph, ids: &mut Vec<Option<u32>>, next: &mut u32, out: &mut Vec<u8>, ref_sites: &mut Vec<(usize, usize)>, fl: Fl, strings: &mut Vec<&'static str>) {
         match ids[n] {
             Some(id) => {
                 let st = out.len();
@@ -137,20 +163,32 @@ fn model_bytes(g: &Graph, th: bool) -> (Vec<u8>, Vec<(usize, usize)>, usize) {
                 *next += 1;
                 ids[n] = Some(*next);
                 out.push(0);
-                if th {
+                if fl.th {
                     // the header is an object of its own: first (and only) offer, it takes the next number
                     *next += 1;
                     out.push(0);
                 }
                 out.extend_from_slice(&g.labels[n].to_be_bytes());
+                if fl.tag {
+                    // string ids are a numbering of their own: 1, 2, ... in first-occurrence order
+                    let t = tag_of(g.labels[n]);
+                    match strings.iter().position(|x| *x == t) {
+                        Some(k) => vmodel::refcodec::var_i32(-(k as i32 + 1), out),
+                        None => {
+                            strings.push(t);
+                            vmodel::refcodec::var_i32(t.len() as i32, out);
+                            out.extend_from_slice(t.as_bytes());
+                        }
+                    }
+                }
                 var_u32(g.edges[n].len() as u32, out);
                 for t in &g.edges[n] {
-                    slot(*t, g, ids, next, out, ref_sites, th);
+                    slot(*t, g, ids, next, out, ref_sites, fl, strings);
                 }
             }
         }
     }
-    slot(0, g, &mut ids, &mut next, &mut out, &mut ref_sites, th);
+    slot(0, g, &mut ids, &mut next, &mut out, &mut ref_sites, fl, &mut strings);
     (out, ref_sites, next as usize)
 }
 
@@ -233,7 +271,8 @@ pub fn check_graph(c: &GraphCase, acc: &mut Acc, record: bool) -> Verdict {
         return Verdict::Skip;
     }
     let th = c.tracked_header;
-    let (want, ref_sites, n_objects) = model_bytes(g, th);
+    let fl = Fl { th, tag: c.tagged };
+    let (want, ref_sites, n_objects) = model_bytes(g, fl);
     let n_nodes = if th { n_objects / 2 } else { n_objects };
     let (cyc, shared) = classify(g);
     if record {
@@ -241,15 +280,15 @@ pub fn check_graph(c: &GraphCase, acc: &mut Acc, record: bool) -> Verdict {
             (true, _) => "cyclic",
             (false, true) => "shared, acyclic",
             _ => "tree",
-        }, if th { " / embedded header object tracked too" } else { "" });
+        }, if th { " / embedded header object tracked too" } else { "" }).to_string() + if c.tagged { " / deduplicated tags in the bodies" } else { "" };
         let class = class.as_str();
-        acc.case(class, hash_json(&(g, th)), cyc || shared);
+        acc.case(class, hash_json(&(g, th, c.tagged)), cyc || shared);
         if acc.wants_sample(class) {
             acc.sample(class, json!({"labels": g.labels, "edges": g.edges, "bytes_hex": hex(&want[..want.len().min(64)])}));
         }
     }
     let nodes = build(g);
-    let enc = guarded(|| encode(&nodes[0], th));
+    let enc = guarded(|| encode(&nodes[0], fl));
     let result = (|| {
         let bytes = match enc {
             Ok(Ok(b)) => b,
@@ -266,7 +305,7 @@ pub fn check_graph(c: &GraphCase, acc: &mut Acc, record: bool) -> Verdict {
         // (b) decode and compare shapes
         let mut all = Vec::new();
         let mut ctx = DeserializationContext::new(&bytes);
-        let dec = guarded(|| de_slot(&mut ctx, &mut all, 0, th));
+        let dec = guarded(|| de_slot(&mut ctx, &mut all, 0, fl));
         let v = match dec {
             Ok(Ok(root)) => {
                 let r = isomorphic(g, &root);
@@ -302,7 +341,7 @@ pub fn check_graph(c: &GraphCase, acc: &mut Acc, record: bool) -> Verdict {
             t.splice(off..off + len, nb);
             let mut all = Vec::new();
             let mut ctx = DeserializationContext::new(&t);
-            let r = guarded(|| de_slot(&mut ctx, &mut all, 0, th).map(|_| ()).map_err(|e| vcat::errinfo(&e).kind));
+            let r = guarded(|| de_slot(&mut ctx, &mut all, 0, fl).map(|_| ()).map_err(|e| vcat::errinfo(&e).kind));
             unlink(&all);
             if record {
                 acc.bump("unknown_reference_faults_injected", 1);
@@ -371,7 +410,7 @@ pub fn run_c10(cx: &Cx) -> PropResult {
                 if idx % cx.shards != shard {
                     return true;
                 }
-                let c = GraphCase { g: g.clone(), tracked_header: idx % 3 == 0, fault_sel: (idx * 7919) as u16, fault_kind: idx as u8 };
+                let c = GraphCase { g: g.clone(), tracked_header: idx % 3 == 0, tagged: idx % 4 == 1, fault_sel: (idx * 7919) as u16, fault_kind: idx as u8 };
                 match check_graph(&c, acc, true) {
                     Verdict::Fail(e) => {
                         acc.violation(e, to_json(&c));
@@ -384,7 +423,7 @@ pub fn run_c10(cx: &Cx) -> PropResult {
                 return;
             }
         }
-        let strat = (random_graph_strategy(), any::<bool>(), any::<u16>(), any::<u8>()).prop_map(|(g, tracked_header, fault_sel, fault_kind)| GraphCase { g, tracked_header, fault_sel, fault_kind }).boxed();
+        let strat = (random_graph_strategy(), any::<bool>(), any::<bool>(), any::<u16>(), any::<u8>()).prop_map(|(g, tracked_header, tagged, fault_sel, fault_kind)| GraphCase { g, tracked_header, tagged, fault_sel, fault_kind }).boxed();
         if drive(tag_seed(derive_seed(cx.seed, cx.prop, shard as u64, 0), 0), &strat, per_shard, acc, &|c: &GraphCase| to_json(c), &mut |c, a, r| check_graph(c, a, r)) {
             return;
         }
@@ -394,7 +433,7 @@ pub fn run_c10(cx: &Cx) -> PropResult {
     let mut r = PropResult::new(
         acc,
         "exploration",
-        "graphs: EXHAUSTIVELY every rooted digraph with 1-4 nodes whose nodes have ordered out-edge lists of length <= 2 over any targets (self-loops, diamonds, back-edges, parallel edges), all nodes reachable; randomly: 1-60 nodes (one case in eight: 100-400 nodes, so that object numbers cross the one-byte var-int boundary), out-degree <= 5. A harness codec written in safe code offers node addresses as identities (in one third / one half of the cases it additionally offers each node's embedded header, a distinct object of another type that lives at the node's own address, which must get its own number) (store_ref_or_object on the writer; state_mut().store_ref right after allocation and try_read_ref + downcast on the reader). Oracles: bytes == model (first offer: 00 + body, later offers: var-u32 of the 1-based first-encounter number, pre-order), objects written == reachable nodes, encoding terminates on cycles; decoded graph isomorphic by a simultaneous walk (labels, ordered edges; two edges reach the same original node iff the decoded targets are pointer-equal); a reference rewritten to objects+1, objects+1000 or u32::MAX decodes to Err(InvalidRefId). Non-trivial = a cycle or a node with in-degree >= 2. Tracked objects as record fields: a hand-expanded derive of struct Holder { a: u8, g1: Slot, s: String, g2: Slot, g3: Slot } (Slot offers a node of one shared graph) as a version-0 record and with g2 / g3 / s introduced by FieldAdded steps (so the slots live in different chunks), followed by one more byte in the stream; bytes must equal the model (markers and back-references inside the chunk of their field, objects numbered in field order) and decoding must restore the sharing between the fields.",
+        "graphs: EXHAUSTIVELY every rooted digraph with 1-4 nodes whose nodes have ordered out-edge lists of length <= 2 over any targets (self-loops, diamonds, back-edges, parallel edges), all nodes reachable; randomly: 1-60 nodes (one case in eight: 100-400 nodes, so that object numbers cross the one-byte var-int boundary), out-degree <= 5. A harness codec written in safe code offers node addresses as identities (in one third / one half of the cases it additionally offers each node's embedded header, a distinct object of another type that lives at the node's own address, which must get its own number; in a quarter / half of the cases every node body also carries one of four DeduplicatedString tags, so that string ids and object numbers are assigned side by side in one stream) (store_ref_or_object on the writer; state_mut().store_ref right after allocation and try_read_ref + downcast on the reader). Oracles: bytes == model (first offer: 00 + body, later offers: var-u32 of the 1-based first-encounter number, pre-order), objects written == reachable nodes, encoding terminates on cycles; decoded graph isomorphic by a simultaneous walk (labels, ordered edges; two edges reach the same original node iff the decoded targets are pointer-equal); a reference rewritten to objects+1, objects+1000 or u32::MAX decodes to Err(InvalidRefId). Non-trivial = a cycle or a node with in-degree >= 2. Tracked objects as record fields: a hand-expanded derive of struct Holder { a: u8, g1: Slot, s: String, g2: Slot, g3: Slot } (Slot offers a node of one shared graph) as a version-0 record and with g2 / g3 / s introduced by FieldAdded steps (so the slots live in different chunks), followed by one more byte in the stream; and through the REAL derive macro, struct DHolder { g3, a, g2, g1, s } with g2 and g3 added by evolution steps and declared before older fields; bytes must equal the model (markers and back-references inside the chunk of their field, objects numbered in field order) and decoding must restore the sharing between the fields.",
     );
     r.exhaustive = Some(true);
     r.extra = json!({"exhaustive_note": "exhaustive for graphs of <= 4 nodes with out-degree <= 2; larger graphs are sampled", "exhaustive_max_nodes": max_n});
@@ -422,16 +461,94 @@ thread_local! {
 pub struct Slot(pub Rc<GNode>);
 impl desert::BinarySerializer for Slot {
     fn serialize<O: BinaryOutput>(&self, ctx: &mut SerializationContext<O>) -> desert::Result<()> {
-        ser_slot(&self.0, ctx, false)
+        ser_slot(&self.0, ctx, Fl { th: false, tag: false })
     }
 }
 impl desert::BinaryDeserializer for Slot {
     fn deserialize(ctx: &mut DeserializationContext<'_>) -> desert::Result<Self> {
         let mut all = DECODED.with(|d| std::mem::take(&mut *d.borrow_mut()));
-        let r = de_slot(ctx, &mut all, 0, false);
+        let r = de_slot(ctx, &mut all, 0, Fl { th: false, tag: false });
         DECODED.with(|d| *d.borrow_mut() = all);
         r.map(Slot)
     }
+}
+
+impl Slot {
+    /// default expression of the FieldAdded steps below (never part of a comparison)
+    fn dummy() -> Slot {
+        Slot(Rc::new_cyclic(|w| GNode { head: Head { label: 0 }, me: w.clone(), edges: RefCell::new(vec![]) }))
+    }
+}
+
+/// The same kind of record through the REAL derive macro, with the added fields declared before older ones: the
+/// documented procedure (fields in declaration order, each routed to its chunk) fixes the order in which objects are
+/// offered to the stream, on both sides.
+#[derive(desert::BinaryCodec)]
+#[evolution(FieldAdded("g2", Slot::dummy()), FieldAdded("g3", Slot::dummy()))]
+pub struct DHolder {
+    pub g3: Slot,
+    pub a: u8,
+    pub g2: Slot,
+    pub g1: Slot,
+    pub s: String,
+}
+
+fn dholder_model(c: &HolderCase) -> Vec<u8> {
+    let mut chunks: Vec<Vec<u8>> = vec![Vec::new(); 3];
+    let mut m = GModel { ids: vec![None; c.g.labels.len()], next: 0 };
+    m.slot(c.at[2], &c.g, &mut chunks[2]);
+    chunks[0].push(c.a);
+    m.slot(c.at[1], &c.g, &mut chunks[1]);
+    m.slot(c.at[0], &c.g, &mut chunks[0]);
+    vmodel::refcodec::var_i32(c.s.len() as i32, &mut chunks[0]);
+    chunks[0].extend_from_slice(c.s.as_bytes());
+    let mut out = vec![2u8];
+    for ch in &chunks {
+        vmodel::refcodec::var_i32(ch.len() as i32, &mut out);
+    }
+    for ch in &chunks {
+        out.extend_from_slice(ch);
+    }
+    out
+}
+
+/// the derived holder: bytes against the model, and the sharing between its fields after decoding
+fn check_dholder(c: &HolderCase, nodes: &[Rc<GNode>]) -> Verdict {
+    let g = &c.g;
+    let v = DHolder { g3: Slot(nodes[c.at[2]].clone()), a: c.a, g2: Slot(nodes[c.at[1]].clone()), g1: Slot(nodes[c.at[0]].clone()), s: c.s.clone() };
+    let want = dholder_model(c);
+    let bytes = match guarded(|| desert::serialize_to_byte_vec(&v)) {
+        Ok(Ok(b)) => b,
+        Ok(Err(e)) => return Verdict::Fail(format!("encoding the derived holder failed: {e:?}")),
+        Err(p) => return Verdict::Fail(format!("encoding the derived holder panicked: {p}")),
+    };
+    if bytes != want {
+        return Verdict::Fail(format!("#[derive] struct DHolder {{ g3 (added 2nd), a, g2 (added 1st), g1, s }} over graph {:?} / {:?}, fields at nodes {:?}, encodes as {} — fields in declaration order, each routed to its chunk, give {}", g.labels, g.edges, c.at, hex(&bytes), hex(&want)));
+    }
+    DECODED.with(|d| d.borrow_mut().clear());
+    let dec = guarded(|| desert::deserialize::<DHolder>(&bytes));
+    let all = DECODED.with(|d| std::mem::take(&mut *d.borrow_mut()));
+    let r = match dec {
+        Ok(Ok(d)) => {
+            let (g1, g2, g3) = (&d.g1.0, &d.g2.0, &d.g3.0);
+            if d.a != c.a || d.s != c.s {
+                Verdict::Fail("derived holder: plain fields changed".into())
+            } else if g1.head.label != g.labels[c.at[0]] || g2.head.label != g.labels[c.at[1]] || g3.head.label != g.labels[c.at[2]] {
+                Verdict::Fail(format!("derived holder: slot fields point at nodes labelled {} {} {} instead of {} {} {} (bytes {})", g1.head.label, g2.head.label, g3.head.label, g.labels[c.at[0]], g.labels[c.at[1]], g.labels[c.at[2]], hex(&bytes)))
+            } else if (c.at[0] == c.at[1]) != Rc::ptr_eq(g1, g2) || (c.at[1] == c.at[2]) != Rc::ptr_eq(g2, g3) || (c.at[0] == c.at[2]) != Rc::ptr_eq(g1, g3) {
+                Verdict::Fail("derived holder: sharing between the slot fields was not restored exactly".into())
+            } else {
+                match isomorphic_from(g, c.at[2], g3).and_then(|_| isomorphic_from(g, c.at[0], g1)) {
+                    Ok(()) => Verdict::Pass,
+                    Err(e) => Verdict::Fail(format!("derived holder: graph below a slot field: {e} (bytes {})", hex(&bytes))),
+                }
+            }
+        }
+        Ok(Err(e)) => Verdict::Fail(format!("decoding the derived holder {} failed: {e:?}", hex(&bytes))),
+        Err(p) => Verdict::Fail(format!("decoding the derived holder {} panicked: {p}", hex(&bytes))),
+    };
+    unlink(&all);
+    r
 }
 
 #[derive(Debug, Clone, Serialize, Deserialize)]
@@ -578,6 +695,11 @@ pub fn check_holder(c: &HolderCase, acc: &mut Acc, record: bool) -> Verdict {
         }
     }
     let nodes = build(g);
+    let dv = check_dholder(c, &nodes);
+    if !matches!(dv, Verdict::Pass) {
+        unlink(&nodes);
+        return dv;
+    }
     let enc = guarded(|| ser_holder(c, &nodes));
     let res = (|| {
         let bytes = match enc {
